@@ -785,6 +785,7 @@ def run(ctx):
     imported(ctx, C01.rule_K3_R1)  # the last-step correction is applied at whichever step is last (first step included)
     imported(ctx, C01.rule_W3)  # the densities a holder carries (log_p, log_p_one, log_pdf of the data order) are those of its tree
     imported(ctx, C14.rule_K1)  # cached proposals / cached new-clone trees are keyed on the concentration
+    imported(ctx, C14.rule_K7)  # a hand-rolled memo of a density a holder carries, keyed on less than it depends on
     # "complete": the arms reach every placement only if the editor does what it is named for (new clone over exactly
     # the drawn children, point added to the drawn clone / the outlier set)
     from . import _premises
